@@ -413,8 +413,8 @@ func e2eFlows(c *suiteCtx, e *testEnv, r *rng, s string) {
 	// (g) unauthenticated request to an arbitrary application path: the sign-in page embeds
 	// the request URI as the redirect (last strategy of the director)
 	if strings.HasPrefix(s, "/") && !strings.HasPrefix(s, prefix+"/") {
-		if _, err := e.buildRequest(reqSpec{Target: s}); err == nil {
-			rv := e.do(reqSpec{Target: s})
+		if _, err := e.buildRequest(reqSpec{Target: s, Literal: true}); err == nil {
+			rv := e.do(reqSpec{Target: s, Literal: true})
 			switch rv.Status {
 			case 403:
 				c.count("flow:app-path")
